@@ -3,7 +3,7 @@ special field receives, and what a transition closure stores for a FAIL / non-FA
 import re
 
 from acverif.mir import short, tstr, subterms
-from acverif.rl import is_call, is_agg, is_named_const, param_at, Unsupported, EvalPanic
+from acverif.rl import is_call, is_agg, is_named_const, param_at, param_of_type, Unsupported, EvalPanic
 from acverif.sym import Sym, summarize, canon, cstr, loop_rows, innermost_loop, teval, by_cstr, row_consistent
 
 FIELDS = ('max_special_id', 'max_match_id', 'start_unanchored_id', 'start_anchored_id')
@@ -210,3 +210,228 @@ def r_one_start_closure(cx, ids=('R09.6', 'R04.5', 'R16.2')):
             parts = [cstr(x) for x in (canon(idx)[2], canon(idx)[3])] if canon(idx)[0] == 'op' else []
             ok = ok or any(sid_arg in p and 'Shl(' in p and 'dfa.stride2' in p for p in parts)
     cx.report('R16.2', cb, 'old2new', ok, 'the row written for NFA state s starts at s << stride2 (same map as for the special ids)' if ok else 'the DFA row of a state is not at oldsid << stride2')
+
+
+class BothStarts:
+    """finish_build_both_starts with its locals resolved by type and role (no names)."""
+
+    def __init__(self, cx):
+        from acverif.rl import expand_vars, peel_all
+        self.cx = cx
+        self.b = b = cx.body(BOTH)
+        self.why = None
+        dv = lambda i: (expand_vars(b, b.def_term(i)) if b.def_term(i) is not None else None)
+        self.tables = [i for i, l in enumerate(b.locals) if l['ty'].startswith('alloc::vec::Vec<util::primitives::StateID') and dv(i) is not None and is_call(dv(i), r'alloc::vec::from_elem$') and is_named_const(dv(i)[2][0], r'DFA::DEAD$')]
+        self.flags = [i for i, l in enumerate(b.locals) if l['ty'].startswith('alloc::vec::Vec<bool') and dv(i) is not None and is_call(dv(i), r'alloc::vec::from_elem$') and dv(i)[2][0] == ('c', 0)]
+        if len(self.tables) != 2 or len(self.flags) != 1:
+            self.why = 'expected two id tables initialised to DEAD and one flag vector initialised to false (found %d / %d)' % (len(self.tables), len(self.flags))
+            return
+        sym = Sym(cx.facts, b)
+        self.tname = {cstr(sym.default_local(i)): i for i in self.tables}
+        self.fname = cstr(sym.default_local(self.flags[0]))
+        sites = b.calls(r'dfa::sparse_iter$')
+        self.h1 = innermost_loop(b, sites[0][0]) if sites else None
+        if self.h1 is None:
+            self.why = 'state loop not found'
+            return
+        self.rows = loop_rows(cx.facts, b, self.h1)
+        role = {}
+        self.flag_problem = None
+        for r in self.rows:
+            if r.end != ('stop', self.h1):
+                continue
+            flagged = set()
+            tst = []
+            for p, v in r.stores():
+                pc = canon(p)
+                if is_call(pc, r'IndexMut::index_mut$'):
+                    base = cstr(pc[2][0])
+                    if base == self.fname:
+                        ix = pc[2][1]
+                        # flags[id >> stride2] = true
+                        if canon(v) == ('c', 1) and ix[0] == 'op' and ix[1] == 'Shr':
+                            x = ix[2]
+                            while is_call(x, r'StateID::as_usize$'):
+                                x = x[2][0]
+                            flagged.add(cstr(x))
+                        else:
+                            self.flag_problem = 'a flag is written as %s := %s' % (tstr(pc, 80), tstr(canon(v), 20))
+                    elif base in self.tname:
+                        tst.append((base, cstr(v), canon(v)))
+            vals = {}
+            for base, vs, vc in tst:
+                vals.setdefault(base, []).append((vs, vc))
+            if len(vals) == 2:
+                (t1, v1), (t2, v2) = [(k, x[-1]) for k, x in vals.items()]
+                if v1[0] != v2[0]:
+                    for tn, (vs, vc) in ((t1, v1), (t2, v2)):
+                        if is_named_const(vc, r'DFA::DEAD$'):
+                            continue
+                        rl = 'A' if vs in flagged else 'U'
+                        if role.setdefault(tn, rl) != rl:
+                            self.why = 'an id table receives flagged (anchored) and unflagged ids'
+            self._flagged = getattr(self, '_flagged', {})
+            self._flagged[id(r)] = flagged
+        if sorted(role.values()) != ['A', 'U']:
+            self.why = self.why or 'the two id tables cannot be told apart by the flagged ids they receive (%s)' % role
+            return
+        self.TA = [k for k, v in role.items() if v == 'A'][0]
+        self.TU = [k for k, v in role.items() if v == 'U'][0]
+
+    def flagged(self, r):
+        return self._flagged.get(id(r), set())
+
+
+def both_starts_rules(cx, ids=('R09.6', 'R04.5', 'R16.2')):
+    from acverif.rl import expand_vars, peel_all, bool_gates
+    rep = lambda rid, *a, **k: cx.report(rid, *a, **k) if rid in ids else None
+    B = BothStarts(cx)
+    b = B.b
+    if B.why:
+        for rid in ids:
+            cx.bad(rid, b, 'both-starts', 'finish_build_both_starts: ' + B.why)
+        return
+    # flags: every id put into the anchored table (other than the shared DEAD/FAIL ids) is flagged in the same iteration
+    whyf = B.flag_problem
+    for r in B.rows:
+        if r.end != ('stop', B.h1):
+            continue
+        fl = B.flagged(r)
+        per = {}
+        for p, v in r.stores():
+            pc = canon(p)
+            if is_call(pc, r'IndexMut::index_mut$') and cstr(pc[2][0]) in (B.TA, B.TU):
+                per.setdefault(cstr(pc[2][0]), []).append(canon(v))
+        va = [x for x in per.get(B.TA, []) if not is_named_const(x, r'DFA::DEAD$')]
+        vu = [x for x in per.get(B.TU, []) if not is_named_const(x, r'DFA::DEAD$')]
+        same = va and vu and cstr(va[-1]) == cstr(vu[-1])
+        if not same:
+            for x in va:
+                if cstr(x) not in fl:
+                    whyf = whyf or 'an id entered into the anchored table is not flagged as anchored row'
+            for x in vu:
+                if cstr(x) in fl:
+                    whyf = whyf or 'an id entered into the unanchored table is flagged as anchored row'
+    rep('R09.6', b, 'flags', whyf is None, 'the anchored start row and every anchored copy are flagged (and no unanchored row is)' if whyf is None else whyf)
+    # the transition closures
+    _b, cl = transition_closures(cx, BOTH)
+    why_nf = why_t = why_fc = None
+    if len(cl) != 2:
+        why_nf = why_t = why_fc = '%d sparse_iter transition closures (expected 2: start states, other states)' % len(cl)
+    for call, cb, rows, itrow in cl:
+        fl = B.flagged(itrow)
+        BYTE, CLASS, NEXT = (cstr(param_at(cb, i)) for i in (2, 3, 4))
+        bases = set()
+        table = {}
+        for isfail in (0, 1):
+            for faildead in (0, 1):
+                def at(t, isfail=isfail, faildead=faildead):
+                    c = canon(t)
+                    if c[0] == 'op' and c[1] in ('Eq', 'Ne') or is_call(c, r'PartialEq::(eq|ne)$'):
+                        a, d = (c[2], c[3]) if c[0] == 'op' else (c[2][0], c[2][1])
+                        neg = (c[1] == 'Ne') if c[0] == 'op' else short(c[1]).endswith('ne')
+                        ks = {cstr(a), cstr(d)}
+                        if ks == {NEXT, 'nfa::noncontiguous::NFA::FAIL'}:
+                            return int(bool(isfail) != neg)
+                        if 'nfa::noncontiguous::NFA::DEAD' in ks and any(re.search(r'\.fail$', k) for k in ks):
+                            return int(bool(faildead) != neg)
+                    return None
+                sel = [r for r in rows if r.end == 'return' and row_consistent(r, at)]
+                if len(sel) != 1:
+                    why_fc = why_fc or '%d paths for FAIL=%d fail-is-DEAD=%d' % (len(sel), isfail, faildead)
+                    continue
+                ts = _trans_stores(cb, sel[0])
+                ent = {}
+                for idx, v in ts:
+                    ic = canon(idx)
+                    parts = [ic[2], ic[3]] if ic[0] == 'op' and ic[1] == 'Add' else []
+                    rowid = [p for p in parts if cstr(p) != CLASS]
+                    if len(rowid) != 1:
+                        why_fc = why_fc or 'a transition is stored at %s (expected row id + class)' % tstr(ic, 80)
+                        continue
+                    x = rowid[0]
+                    while is_call(x, r'StateID::as_usize$'):
+                        x = x[2][0]
+                    ent[cstr(x)] = canon(v)
+                    bases.add(cstr(x))
+                table[(isfail, faildead)] = ent
+        single = len(bases) == 1
+        for (isfail, faildead), ent in table.items():
+            for bs in bases:
+                v = ent.get(bs)
+                anchored_row = bs in fl
+                if not isfail:
+                    if v is None or cstr(v) != NEXT:
+                        (why_t if False else None)
+                        if anchored_row:
+                            why_t = why_t or 'the anchored copy stores %s for a real trie transition (expected the trie target itself)' % (tstr(v, 60) if v else 'nothing')
+                        else:
+                            why_fc = why_fc or 'a real trie transition is stored as %s' % (tstr(v, 60) if v else 'nothing')
+                elif single:
+                    if v is None or not is_named_const(v, r'DFA::DEAD$'):
+                        why_fc = why_fc or 'a FAIL transition of a start state becomes %s (expected DEAD)' % (tstr(v, 60) if v else 'nothing')
+                elif anchored_row:
+                    if v is not None:
+                        why_nf = why_nf or 'the anchored copy receives %s for a FAIL transition (it must keep DEAD: anchored searches never follow failure links)' % tstr(v, 80)
+                else:
+                    if faildead:
+                        if v is None or not is_named_const(v, r'NFA::DEAD$'):
+                            why_fc = why_fc or 'a FAIL transition of a state whose failure link is DEAD becomes %s' % (tstr(v, 60) if v else 'nothing')
+                    else:
+                        good = v is not None and is_call(v, r'next_state$') and is_agg(v[2][1], r'Anchored$', 'No') and re.search(r'\.fail$', cstr(v[2][2])) and cstr(v[2][3]) == BYTE
+                        if not good:
+                            why_fc = why_fc or 'a FAIL transition is resolved as %s (expected nnfa.next_state(Anchored::No, state.fail(), byte))' % (tstr(v, 100) if v else 'nothing')
+        if not single and not any(bs in fl for bs in bases):
+            why_nf = why_nf or 'neither row written by the two-row closure is flagged anchored'
+    rep('R09.6', b, 'anchored-copy-no-fail', why_nf is None, 'the anchored copy\'s row is written only for real trie transitions (FAIL keeps the initial DEAD)' if why_nf is None else why_nf)
+    rep('R09.6', b, 'anchored-copy-target', why_t is None, 'the anchored copy stores the trie target itself' if why_t is None else why_t)
+    rep('R04.5', b, 'failure-closure', why_fc is None, 'both starts: real transitions are copied; a missing one is resolved through nnfa.next_state(Anchored::No, state.fail(), byte) unless state.fail() is DEAD; start states map FAIL to DEAD' if why_fc is None else why_fc)
+    # final remap: rows flagged anchored use the anchored table, the others the unanchored table
+    whyr = None
+    sym = Sym(cx.facts, b)
+    loops = b.loops()
+    sites = [bi for bi, si, pl, st in b.stores() if si != 'term' and '*' in pl['pr'] and b.locals[pl['l']]['ty'].startswith('&mut util::primitives::StateID')
+             and is_call(peel_all(expand_vars(b, b.rvalue_term(st['r'], 0, bi), keep=lambda x: True)), r'Index::index$')]
+    inner = sorted({innermost_loop(b, bi) for bi in sites} - {None})
+    seen = {True: set(), False: set()}
+    if not inner:
+        whyr = 'no loop rewrites the transition table through the id tables'
+    for hi in inner:
+        outs = [h for h, blks in loops.items() if hi in blks and h != hi]
+        if not outs:
+            whyr = whyr or 'the remap loop is not nested in a loop over the rows'
+            continue
+        ho = min(outs, key=lambda h: len(loops[h]))
+        mods, _ = sym.loop_mods(hi)
+        for ar in Sym(cx.facts, b, start=ho, stop={hi, ho}).rows():
+            if ar.end != ('stop', hi):
+                continue
+            fv = ar.cond(lambda c: (is_call(canon(c), r'Index::index$') and cstr(canon(c)[2][0]) == B.fname) or (canon(c)[0] == 'idx' and cstr(canon(c)[1]) == B.fname))
+            if fv is None:
+                whyr = whyr or 'a remap loop is reached without testing the row\'s anchored flag'
+                continue
+            env = {l: v for l, v in ar.env.items() if l not in mods and l != 0}
+            for r in Sym(cx.facts, b, start=hi, stop={hi, ho}, env=env).rows():
+                for p0, v0 in r.stores():
+                    vc = canon(v0)
+                    if is_call(vc, r'Index::index$') and cstr(vc[2][0]) in (B.TA, B.TU):
+                        seen[fv].add(cstr(vc[2][0]))
+    if whyr is None:
+        if seen[True] != {B.TA} or seen[False] != {B.TU}:
+            whyr = 'rows flagged anchored are remapped with %s, the others with %s (expected the anchored / unanchored id table)' % (sorted(seen[True]), sorted(seen[False]))
+    rep('R09.6', b, 'remap-by-flag', whyr is None, 'rows flagged anchored are remapped with the anchored id table, all others with the unanchored one' if whyr is None else whyr)
+    # special ids
+    NN = cstr(param_of_type(b, r'noncontiguous::NFA'))
+    got = {}
+    for bi, si, tt, v, s in b.field_stores():
+        if tt[0] == 'f' and tt[2] in FIELDS:
+            got.setdefault(tt[2], []).append(peel_all(expand_vars(b, v, keep=lambda x: x[2] in B.tables)))
+    for f in FIELDS:
+        vs = got.get(f, [])
+        want = B.TU if f == 'start_unanchored_id' else B.TA
+        ok = len(vs) == 1 and is_call(vs[0], r'Index::index$')
+        if ok:
+            tb = peel_all(vs[0][2][0])
+            src = peel_all(vs[0][2][1])
+            ok = cstr(tb) == want and src[0] == 'f' and src[2] == f and is_call(peel_all(src[1]), r'NFA::special$') and cstr(peel_all(src[1])[2][0]) == NN
+        rep('R16.2', b, 'special:' + f, ok, 'special.%s = %s table[nnfa.special().%s]' % (f, 'unanchored' if want == B.TU else 'anchored', f) if ok else 'DFA (both starts) special.%s is assigned %s' % (f, [tstr(v, 80) for v in vs]))
